@@ -19,6 +19,7 @@ func init() {
 		JSONQuote(c, "R-JSONQUOTE")
 		JSONDecDefault(c, "R-JSONDEC")
 		JSONBounds(c, "R-JSONBOUNDS")
+		JSONFresh(c, "R-JSONFRESH")
 	})
 }
 
